@@ -33,7 +33,9 @@ let eval (input : Sx.t) (obs : Sx.t) : Sx.t list * bool * bool * string =
     @ (match Sx.field_opt "raw" input with
        | Some x -> (match Sx.args x with
            | [raw; name] -> let v = Query.query_get (str raw) (str name) in   (* net/url.ParseQuery, first value of the name *)
-               [t "raw" [sx_str (query v dstr); sx_z (query_int v dint); sx_str (query_trim v dstr)]]
+               let dl = (match dstr with Some d -> Some [d; d] | None -> None) in
+               [t "raw" [sx_str (query v dstr); sx_z (query_int v dint); sx_str (query_trim v dstr)];
+                t "rawl" (List.map sx_str (Query.query_strings (str raw) (str name) dl))]
            | _ -> failwith "raw")
        | None -> [])
     @ [ t "cookie" [sx_str (cookie_roundtrip c)] ] in
@@ -49,7 +51,7 @@ let eval (input : Sx.t) (obs : Sx.t) : Sx.t list * bool * bool * string =
         (* ... and a present value is returned converted by the base-10 / boolean rule, zero on
            malformed text: Escape.parse_int / query_int / query_bool are that rule (theorems C18_default_rule_present and _absent) *)
         && List.for_all (fun m -> let tag = Sx.tag m in
-             not (List.mem tag ["query"; "trim"; "unescape"; "bool"; "int"; "int64"; "float"; "param"; "paramint"; "paramint64"; "noparam"; "nocookie"; "requery"; "raw"])
+             not (List.mem tag ["query"; "trim"; "unescape"; "bool"; "int"; "int64"; "float"; "param"; "paramint"; "paramint64"; "noparam"; "nocookie"; "requery"; "raw"; "rawl"])
              || List.assoc tag (List.map (fun x -> (Sx.tag x, Sx.args x)) l) = Sx.args m) model
       with Not_found -> false)) in
   let odd = List.exists (fun ch -> let x = int_of_n ch in x < 32 || x > 126 || x = 59 || x = 44 || x = 34 || x = 92 || x = 32 || x = 37 || x = 43) c in
